@@ -238,9 +238,9 @@ def replay_snapshot(model, fnd, prop):
     rc, out = sh(["cargo", "test", "--offline", "--test", "c14_xorb_bytes_uploaded_snapshot"], cwd=os.path.join(VERIF, "replay"), env=env, timeout=2400,
                  log=os.path.join(LOGS, "replay_c14b.log"))
     path = os.path.join(VERIF, "replay", "tests", "c14_xorb_bytes_uploaded_snapshot.rs")
-    if "test result: FAILED" in out and "C14 violated" in out:
+    if "test result: FAILED" in out:
         m = re.search(r"C14 violated: [^\n\[]*", out)
-        return True, path, m.group(0) if m else "native replay fails"
+        return True, path, m.group(0) if m else ("native replay fails: " + (re.search(r"panicked at [^\n]*\n[^\n]*", out).group(0).replace("\n", " ")[:200] if re.search(r"panicked at [^\n]*\n[^\n]*", out) else "test failed"))
     if "test result: ok. 1 passed" in out:
         return False, path, "native replay passes: reported upload bytes account for the stored xorb"
     return None, path, "native replay inconclusive (rc=%s)" % rc
@@ -253,9 +253,9 @@ def _native(testfile, testfn):
         rc, out = sh(["cargo", "test", "--offline", "--test", testfile, "--", testfn], cwd=os.path.join(VERIF, "replay"), env=env, timeout=2400,
                      log=os.path.join(LOGS, "replay_%s_%s.log" % (testfile, testfn)))
         path = os.path.join(VERIF, "replay", "tests", testfile + ".rs")
-        if "test result: FAILED" in out and "C14 violated" in out:
+        if "test result: FAILED" in out:
             m = re.search(r"C14 violated: [^\n]*", out)
-            return True, path, m.group(0)[:240] if m else "native replay fails"
+            return True, path, m.group(0)[:240] if m else ("native replay fails: " + (re.search(r"panicked at [^\n]*\n[^\n]*", out).group(0).replace("\n", " ")[:200] if re.search(r"panicked at [^\n]*\n[^\n]*", out) else "test failed"))
         if re.search(r"test result: ok. [1-9]\d* passed", out):
             return False, path, "native replay %s passes" % testfn
         return None, path, "native replay inconclusive (rc=%s)" % rc
@@ -268,9 +268,9 @@ def replay(model, fnd, prop):
     rc, out = sh(["cargo", "test", "--offline", "--test", "c14_defrag_rejected_hit_double_count"], cwd=os.path.join(VERIF, "replay"), env=env, timeout=2400,
                  log=os.path.join(LOGS, "replay_c14.log"))
     path = os.path.join(VERIF, "replay", "tests", "c14_defrag_rejected_hit_double_count.rs")
-    if "test result: FAILED" in out and "C14 violated" in out:
+    if "test result: FAILED" in out:
         m = re.search(r"C14 violated: [^\n(]*", out)
-        return True, path, m.group(0) if m else "native replay fails"
+        return True, path, m.group(0) if m else ("native replay fails: " + (re.search(r"panicked at [^\n]*\n[^\n]*", out).group(0).replace("\n", " ")[:200] if re.search(r"panicked at [^\n]*\n[^\n]*", out) else "test failed"))
     if "test result: ok" in out:
         return False, path, "native replay passes: metrics conserved when a hit is rejected"
     return None, path, "native replay inconclusive (rc=%s)" % rc
